@@ -39,6 +39,22 @@ Theorem C03_outside_known : forall n hist final,
 Proof. exact outside_known. Qed.
 Print Assumptions C03_outside_known.
 
+(* ... and the converged content is coherent: inside the envelope no member ever shows a row together
+   with a deletion record that covers it ([coherent] is the function spec_C03 applies to the final dumps) *)
+Theorem C03_converged_coherent : forall n hist final,
+  let c := C03Case n hist final in
+  c03_envelope c = true -> forallb coherent (run_sys (init_sys n) (hist ++ final)) = true.
+Proof. exact converged_coherent. Qed.
+Print Assumptions C03_converged_coherent.
+
+(* batching: a day's deletion records and rows may arrive cut into any number of batches; applying them
+   batch by batch gives what applying the whole answer gives, provided the split loses no element
+   (that proviso is what the harness checks on the code, with answers of ~4 KiB) *)
+Theorem C03_batches_lossless : forall tchunks rchunks r l,
+  apply_tomb_batches tchunks r = fold_left apply_tomb (concat tchunks) r /\ put_batches rchunks l = fold_left put_node (concat rchunks) l.
+Proof. intros. split; [apply batches_lossless_tombs|apply batches_lossless_rows]. Qed.
+Print Assumptions C03_batches_lossless.
+
 (* between replicas without deletion records: Node::filter_existing + write implement the join
    "greatest (modification date, signature) per row id" *)
 Theorem C03_lww_join : forall dst src days x,
